@@ -13,6 +13,8 @@ ALSO = {  # other checks worth trying per mutant (besides its own property)
     'C19/m2': ['C09'], 'C09/m2': ['C01'], 'C02/m1': ['C01'], 'C01/m1': ['C02'], 'C15/m2': ['C03', 'C17'], 'C03/m1': ['C17'], 'C16/m1': ['C03'],
     'C18/m2': ['C09'], 'C07/m1': ['C10'], 'C12/m2': ['C18'],
 }
+if PREFIX == 'r8':
+    ALSO = {'C02/m1': ['C09']}
 if PREFIX == 'r7':
     ALSO = {'C02/m2': ['C09', 'C10'], 'C18/m2': ['C12'], 'C19/m1': ['C15']}
 if PREFIX == 'r6':
